@@ -96,6 +96,11 @@ def tm_unpack(data: Bytes, tlen: Int):
     o = outcome(PusTm.unpack, data, tlen)
     ensures("raises-only", o.ok or o.raised(ValueError, InvalidTmCrc16))
     ensures("short-refused", implies(len(data) < 15 + tlen, not o.ok))
+    if len(data) >= 13:
+        n0 = data[4] * 256 + data[5] + 7
+        well_formed = both(n0 >= 15 + tlen, len(data) >= n0, bits(data[6], 7, 4) == 2)
+        ensures("accept-iff", o.ok == both(well_formed, crc16(data[0:n0]) == 0))
+        ensures("crc-error-iff", o.raised(InvalidTmCrc16) == both(well_formed, crc16(data[0:n0]) != 0))
     if o.ok:
         tm = o.value
         n = data[4] * 256 + data[5] + 7
